@@ -7,7 +7,7 @@ From Coq Require Import List ZArith NArith Bool.
 Import ListNotations.
 Open Scope Z_scope.
 Require Import MW.Ledger.Model MW.Ledger.Spec MW.Ledger.Run MW.Ledger.WF.
-Require Import MW.Ledger.Proofs MW.Ledger.Proofs2 MW.Ledger.Proofs3 MW.Ledger.Proofs4 MW.Ledger.Proofs5.
+Require Import MW.Ledger.Proofs MW.Ledger.Proofs2 MW.Ledger.Proofs3 MW.Ledger.Proofs4 MW.Ledger.Proofs5 MW.Ledger.Proofs6.
 
 (* The code as first found asked ExistCreditFromTx through a separate read transaction, i.e.
    against the committed store, while the reorg's write transaction was open ([a1fix] = false).
@@ -145,4 +145,32 @@ Proof. vm_compute. repeat split; reflexivity. Qed.
    longer on the node fails and changes nothing, the tip is then connected again *)
 Example C01_history_stale_and_failed :
   map (fun k => fst (tip (s_wallet (run p0 true g0 (firstn k hist2))))) [14; 16; 17; 18]%nat = [4; 3; 3; 4].
+Proof. vm_compute. reflexivity. Qed.
+
+(* C01 with addresses issued at any time: [wf_history_gen] only asks that an address is issued before
+   any attached block pays it ([owners_before_paid]); [wf_history] (all addresses first) implies it *)
+Theorem C01_ledger_refines_chain_gen : forall p g h b,
+  wf_history_gen p true g (h ++ [EvProcess b]) ->
+  last (s_node (run p true g h)) g = b ->
+  let s := run p true g (h ++ [EvProcess b]) in
+  forall w, model_report (s_wallet s) w = spec_report p (own_of (s_own s)) (s_node s) w.
+Proof. exact history_theorem_gen. Qed.
+Print Assumptions C01_ledger_refines_chain_gen.
+
+Theorem C01_wf_history_is_gen : forall p a g h, wf_history p a g h -> wf_history_gen p a g h.
+Proof. exact wf_history_gen_of. Qed.
+Print Assumptions C01_wf_history_is_gen.
+
+(* non-vacuity of the general form: address 1 is issued after blocks were attached and processed,
+   before the first block that pays it (blk2b) is attached; this history is not [owners_first] *)
+Definition hist3a : list event :=
+  [EvOwner 9 2; EvAttach blk1; EvProcess blk1; EvOwner 1 1; EvAttach blk2b; EvAttach blk3b; EvProcess blk3b;
+   EvOwner 5 1; EvAttach blk4b].
+Definition hist3 : list event := hist3a ++ [EvProcess blk4b].
+
+Example C01_history_gen_wf : wf_history_gen p0 true g0 hist3 /\ last (s_node (run p0 true g0 hist3a)) g0 = blk4b.
+Proof. split; [apply wf_history_gen_b_sound|]; vm_compute; reflexivity. Qed.
+
+Example C01_history_gen_totals :
+  map (fun w => r_total (model_report (s_wallet (run p0 true g0 hist3)) w)) [1; 2]%N = [1; 9].
 Proof. vm_compute. reflexivity. Qed.
